@@ -75,6 +75,10 @@ func (r *Run) BuildCorpus(only map[string]bool) (*Corpus, error) {
 			if strings.HasSuffix(n, ".templ") || strings.HasSuffix(n, ".go") {
 				copyFile(filepath.Join(src, n), filepath.Join(croot, name, n))
 			}
+			if strings.HasSuffix(n, "_test.go.txt") {
+				// replay oracle shipped with a corpus template
+				copyFile(filepath.Join(src, n), filepath.Join(croot, name, strings.TrimSuffix(n, ".txt")))
+			}
 		}
 	}
 	gens, _ := filepath.Glob(filepath.Join(r.repo, "generator", "test-*"))
@@ -214,3 +218,18 @@ func (r *Run) generatedClosures(c *Corpus) []*genClosure {
 }
 
 var _ = types.Universe
+
+// runCorpusTest runs a replay test that ships with a corpus template, inside the scratch module.
+func (r *Run) runCorpusTest(dir, runName string) (string, error) {
+	if r.corpus == nil {
+		return "", fmt.Errorf("no corpus")
+	}
+	cmd := exec.Command("go", "test", "-vet=off", "-count=1", "-v", "-timeout", "120s", "-run", "^"+runName+"$", "./corpus/"+dir)
+	cmd.Dir = r.corpus.Dir
+	cmd.Env = goEnv()
+	var buf bytes.Buffer
+	cmd.Stdout = &buf
+	cmd.Stderr = &buf
+	err := cmd.Run()
+	return buf.String(), err
+}
